@@ -465,7 +465,7 @@ theorem step_allQ (s s' : St) (e : Ev) (h : AllQ s) (hs : step s e = some s') : 
         · cases hs
       · cases hs
     · cases hs
-  | quiesce p r =>
+  | quiesce p r l =>
     simp only [step] at hs
     split at hs
     · simp at hs; subst hs; exact h
